@@ -413,3 +413,9 @@ w("C12", "writer recognises only the naive DateTime dtype again", "pandera/io/pa
   "            dtype is not None\n            and dtypes.is_datetime(dtype)\n            and hasattr(stat, \"strftime\")", "            pandas_engine.Engine.dtype(dtypes.DateTime).check(dtype)\n            and hasattr(stat, \"strftime\")")
 w("C12", "reader recognises only the naive DateTime dtype again", "pandera/io/pandas_io.py",
   "            if dtype is not None and dtypes.is_datetime(dtype):\n                try:", "            if pandas_engine.Engine.dtype(dtypes.DateTime).check(dtype):\n                try:")
+w("C17", "*args bundle recognised by comparing lengths again", "pandera/decorators.py",
+  "        if star_args_name in named_arguments:\n            star_args_values = named_arguments.pop(star_args_name)\n",
+  "        if len(arguments) > len(named_arguments):\n            star_args_values = named_arguments.pop(star_args_name)\n")
+w("C17", "**kwargs bundle recognised by comparing key sets again", "pandera/decorators.py",
+  "        if star_kwargs_name in named_kwargs:\n            star_kwargs_dict = named_kwargs.pop(star_kwargs_name)\n",
+  "        if kwargs.keys() != named_kwargs.keys():\n            _, star_kwargs_dict = named_kwargs.popitem()\n")
